@@ -107,8 +107,77 @@ Definition dec_change (s : sexp) : option (option (N -> list rid -> result (list
        | None => None
        end.
 
+(** *** custom RelationshipResolver implementations: per resource value, an error or the
+    types.Relationship returned: Links, Data (absent / linkage / for add and remove "echo the
+    members"), Meta, and whether Data is included even when it was not requested *)
+Definition dec_link_pairs (l : list sexp) : option links :=
+  map_opt (fun e => match e with
+                    | SL [k; v] => do kb <- as_bytes k; do vb <- as_bytes v; Some (kb, vb)
+                    | _ => None
+                    end) l.
+Inductive cdata := CDAbsent | CDLink (l : linkage) | CDEcho.
+Record crel_out := { co_links : links; co_data : cdata; co_meta : list (bytes * bool); co_always : bool }.
+Inductive custom_out := COk (o : crel_out) | CErr (e : err).
+
+Definition dec_cdata (s : sexp) : option cdata :=
+  if sym_is "absent" s then Some CDAbsent
+  else if sym_is "echo" s then Some CDEcho
+  else if sym_is "null" s then Some (CDLink LNull)
+  else match untag s with
+       | Some (t, l) =>
+           if String.eqb t "one" then
+             match l with [ty; i] => do r <- dec_rid_pair (SL [ty; i]); Some (CDLink (LOne r)) | _ => None end
+           else if String.eqb t "many" then do ids <- map_opt dec_rid_pair l; Some (CDLink (LMany ids))
+           else None
+       | None => None
+       end.
+
+Definition dec_custom_out (s : sexp) : option custom_out :=
+  match tagged "crel" s with
+  | Some [lk; d; m; a] =>
+      do ll <- tagged "links" lk; do lks <- dec_link_pairs ll;
+      do dd <- tagged "data" d;
+      do cd <- match dd with [x] => dec_cdata x | _ => None end;
+      do ml <- tagged "meta" m;
+      do ms <- map_opt (fun e => match e with
+                                 | SL [k; ok] => do kb <- as_bytes k; do okb <- as_bool ok; Some (kb, okb)
+                                 | _ => None
+                                 end) ml;
+      do ab <- as_bool a;
+      Some (COk {| co_links := lks; co_data := cd; co_meta := ms; co_always := ab |})
+  | _ => do e <- dec_err s; Some (CErr e)
+  end.
+
+Definition custom_relationship (o : crel_out) (include_data : bool) (members : list rid) : relationship :=
+  {| rel_links := co_links o;
+     rel_data := if include_data then match co_data o with
+                                      | CDAbsent => None
+                                      | CDLink l => Some l
+                                      | CDEcho => Some (LMany members)
+                                      end
+                 else None;
+     rel_meta := co_meta o |}.
+Definition default_custom_out : custom_out :=
+  COk {| co_links := []; co_data := CDAbsent; co_meta := []; co_always := false |}.
+Definition custom_resolve (os : list custom_out) (v : N) (requested : bool) : result relationship :=
+  match nth_or_last os default_custom_out v with
+  | CErr e => Er e
+  | COk o => Ok (custom_relationship o (requested || co_always o) [])
+  end.
+Definition custom_change (os : list custom_out) (v : N) (members : list rid) : result relationship :=
+  match nth_or_last os default_custom_out v with
+  | CErr e => Er e
+  | COk o => Ok (custom_relationship o true members)
+  end.
+
 Definition dec_rel (s : sexp) : option rel_def :=
   match untag s with
+  | Some (t, [n; SL outs; SL adds; SL removes]) =>
+      if String.eqb t "custom" then
+        do nb <- as_bytes n; do os <- map_opt dec_custom_out outs;
+        do az <- map_opt dec_custom_out adds; do rz <- map_opt dec_custom_out removes;
+        Some {| rd_name := nb; rd_resolver := Custom (custom_resolve os) (custom_change az) (custom_change rz) |}
+      else None
   | Some (t, [n; d; SL outs]) =>
       if String.eqb t "one" then
         do nb <- as_bytes n; do db <- as_bool d; do os <- map_opt dec_one_out outs;
@@ -229,7 +298,8 @@ Fixpoint json_members_distinct (j : json) : bool :=
 Definition dec_body (s : sexp) : option body :=
   if sym_is "none" s then Some BNone
   else match tagged "json" s with
-       | Some [t] => do j <- dec_json t; Some (BJson j)
+       | Some [t] => do j <- dec_json t; Some (BJson j [])
+       | Some [t; tl] => do j <- dec_json t; do tb <- as_bytes tl; Some (BJson j tb)
        | _ => None
        end.
 
@@ -286,7 +356,15 @@ Definition dec_wrel (s : sexp) : option (bytes * relationship) :=
       do nb <- as_bytes n; do ll <- tagged "links" lk; do lks <- dec_links ll;
       do dd <- tagged "data" d;
       match dd with
-      | [x] => do ol <- dec_opt_linkage x; Some (nb, {| rel_links := lks; rel_data := ol |})
+      | [x] => do ol <- dec_opt_linkage x; Some (nb, {| rel_links := lks; rel_data := ol; rel_meta := [] |})
+      | _ => None
+      end
+  | SL [n; lk; d; m] =>
+      do nb <- as_bytes n; do ll <- tagged "links" lk; do lks <- dec_links ll;
+      do dd <- tagged "data" d; do ml <- tagged "meta" m; do ms <- map_opt as_bytes ml;
+      match dd with
+      | [x] => do ol <- dec_opt_linkage x;
+               Some (nb, {| rel_links := lks; rel_data := ol; rel_meta := map (fun k => (k, true)) ms |})
       | _ => None
       end
   | _ => None
@@ -393,7 +471,8 @@ Definition pair_eqb {A} (eqb : A -> A -> bool) (x y : bytes * A) : bool :=
 Definition links_eqb (x y : links) : bool :=
   list_eqb (pair_eqb bytes_eqb) (sort_by fst x) (sort_by fst y).
 Definition relationship_eqb (x y : relationship) : bool :=
-  links_eqb (rel_links x) (rel_links y) && option_eqb linkage_eqb (rel_data x) (rel_data y).
+  links_eqb (rel_links x) (rel_links y) && option_eqb linkage_eqb (rel_data x) (rel_data y) &&
+  list_eqb bytes_eqb (sort_by (fun k => k) (map fst (rel_meta x))) (sort_by (fun k => k) (map fst (rel_meta y))).
 Definition witem_eqb (x y : witem) : bool :=
   bytes_eqb (w_type x) (w_type y) && bytes_eqb (w_id x) (w_id y) &&
   list_eqb bytes_eqb (sort_by (fun k => k) (w_attrs x)) (sort_by (fun k => k) (w_attrs y)) &&
@@ -484,45 +563,100 @@ Definition classes (pmt : bytes -> pm_result) (sch : schema) (rq : request) (m :
        | WDoc _ (WMany _) _ _ => ["data-many"]
        | WBareError _ => ["bare-error"]
        end) ++
+      (if existsb (fun t => existsb (fun d => match rd_resolver d with Custom _ _ _ => true | _ => false end) (rt_rels t)) sch
+       then ["custom-resolver"] else []) ++
+      (match rq_body rq with
+       | BJson _ (_ :: _ as tl) => if forallb is_json_space tl then ["body-trailing-space"] else ["body-trailing-bytes"]
+       | _ => []
+       end) ++
+      (match bd with
+       | WDoc _ (WOne i) _ _ =>
+           if existsb (fun nr => negb (Nat.eqb (List.length (rel_links (snd nr))) 2)) (w_rels i) then ["extra-links"] else []
+       | WDoc _ (WMany l) _ _ =>
+           if existsb (fun i => existsb (fun nr => negb (Nat.eqb (List.length (rel_links (snd nr))) 2)) (w_rels i)) l then ["extra-links"] else []
+       | WDoc _ _ [] (_ :: _ :: _ :: _) => ["extra-links"]
+       | _ => []
+       end) ++
+      (match bd with
+       | WDoc _ (WOne i) _ _ =>
+           if existsb (fun nr => match rel_meta (snd nr) with [] => false | _ => true end) (w_rels i) then ["relationship-meta"] else []
+       | _ => []
+       end) ++
       (match execute_request fixed pmt (fun l => hd {| e_status := [] |} l) sch rq with
        | Some r => if negb (data_marshals (rs_data r)) then ["marshal-fallback"] else []
        | None => []
        end)
   end.
 
-(** ** the check *)
+(** ** the check: one request against the schema, or a history of requests against ONE API value
+    (the model answers each request of a history on its own: it has no state) *)
+Definition check_step (sch : schema) (ps : list sexp) (r o : sexp) : sexp + list string :=
+  match map_opt dec_pmt_entry ps, dec_request r, dec_observed o with
+  | Some T, Some rq, Some ob =>
+      if negb (forallb (pmt_has T) (accept_instances fixed (rq_accept rq))) then inl (v_bad "pmt-table-incomplete")
+      else if negb (match rq_body rq with BJson j _ => json_members_distinct j | BNone => true end)
+           then inl (v_bad "repeated-member")
+      else
+        let pmt := pmt_of T in
+        let choose := choose_from ob in
+        let st := match ob with OPanic => None | OResp s _ _ _ => Some s end in
+        match oracle pmt sch rq (match ob with
+                                 | OPanic => None
+                                 | OResp s ct bd _ => Some (s, ct, bd)
+                                 end) with
+        | Some key => inl (v_oracle_fail key [match st with Some s => SZ s | None => SSym "panic" end])
+        | None =>
+            let m := serve_http fixed pmt choose sch rq in
+            match agrees m ob with
+            | Some what => inl (v_mismatch what [match m with Resp s _ _ _ => SZ s | Panic => SSym "panic" end])
+            | None => inr (classes pmt sch rq m)
+            end
+        end
+  | None, _, _ => inl (v_bad "decode-pmt")
+  | _, None, _ => inl (v_bad "decode-request")
+  | _, _, None => inl (v_bad "decode-observed")
+  end.
+
+Fixpoint check_steps (sch : schema) (steps : list sexp) (acc : list string) : sexp :=
+  match steps with
+  | [] => v_ok acc
+  | st :: rest =>
+      match tagged "step" st with
+      | Some l =>
+          match field "pmt" l, field1 "request" l, field1 "observed" l with
+          | Some ps, Some r, Some o =>
+              match check_step sch ps r o with
+              | inl verdict => verdict
+              | inr cls => check_steps sch rest (match rest with [] => acc ++ cls | _ => acc end)
+              end
+          | _, _, _ => v_bad "step-fields"
+          end
+      | None => v_bad "step-shape"
+      end
+  end.
+
 Definition check (c : sexp) : sexp :=
   match tagged "case" c with
   | Some l =>
-      match field "schema" l, field "pmt" l, field1 "request" l, field1 "observed" l with
-      | Some ts, Some ps, Some r, Some o =>
-          match map_opt dec_rtype ts, map_opt dec_pmt_entry ps, dec_request r, dec_observed o with
-          | Some sch, Some T, Some rq, Some ob =>
-              if negb (forallb (pmt_has T) (accept_instances fixed (rq_accept rq))) then v_bad "pmt-table-incomplete"
-              else if negb (match rq_body rq with BJson j => json_members_distinct j | BNone => true end)
-                   then v_bad "repeated-member"
-              else
-                let pmt := pmt_of T in
-                let choose := choose_from ob in
-                let st := match ob with OPanic => None | OResp s _ _ _ => Some s end in
-                match oracle pmt sch rq (match ob with
-                                         | OPanic => None
-                                         | OResp s ct bd _ => Some (s, ct, bd)
-                                         end) with
-                | Some key => v_oracle_fail key [match st with Some s => SZ s | None => SSym "panic" end]
-                | None =>
-                    let m := serve_http fixed pmt choose sch rq in
-                    match agrees m ob with
-                    | Some what => v_mismatch what [match m with Resp s _ _ _ => SZ s | Panic => SSym "panic" end]
-                    | None => v_ok (classes pmt sch rq m)
-                    end
-                end
-          | None, _, _, _ => v_bad "decode-schema"
-          | _, None, _, _ => v_bad "decode-pmt"
-          | _, _, None, _ => v_bad "decode-request"
-          | _, _, _, None => v_bad "decode-observed"
+      match field "schema" l with
+      | Some ts =>
+          match map_opt dec_rtype ts with
+          | Some sch =>
+              match field "steps" l with
+              | Some steps => check_steps sch steps ["history"]
+              | None =>
+                  match field "pmt" l, field1 "request" l, field1 "observed" l with
+                  | Some ps, Some r, Some o =>
+                      match check_step sch ps r o with
+                      | inl verdict => verdict
+                      | inr cls => v_ok cls
+                      end
+                  | _, _, _ => v_bad "fields"
+                  end
+              end
+          | None => v_bad "decode-schema"
           end
-      | _, _, _, _ => v_bad "fields"
+      | None => v_bad "fields"
       end
   | None => v_bad "shape"
   end.
